@@ -7,6 +7,7 @@ import CoercionModel.Model.Validate
 import CoercionModel.Model.Engine
 import CoercionModel.Model.Startup
 import CoercionModel.Model.Search
+import CoercionModel.Model.Secure
 open Lean
 namespace Coercion
 
@@ -96,5 +97,27 @@ deriving instance ToJson for Startup.Fate
 
 deriving instance FromJson for Search.Row
 deriving instance FromJson for Search.Filters
+
+namespace Secure
+mutual
+partial def parseV (j : Json) : Except String V := do
+  let k ← j.getObjValAs? String "k"
+  match k with
+  | "leaf" => return .leaf (← j.getObjValAs? Nat "c")
+  | "nil" => return .nil
+  | "ptr" => return .ptr (← parseV (← j.getObjVal? "v"))
+  | "iface" => return .iface (← parseV (← j.getObjVal? "v"))
+  | "struct" => return .struct (← parseFs (← j.getObjValAs? (List Json) "fs"))
+  | "slice" => return .slice (← parseVs (← j.getObjValAs? (List Json) "vs"))
+  | "map" => return .map (← parseVs (← j.getObjValAs? (List Json) "vs"))
+  | _ => throw s!"bad GoVal kind {k}"
+partial def parseVs : List Json → Except String Vs
+  | [] => return .nil
+  | j :: r => return .cons (← parseV j) (← parseVs r)
+partial def parseFs : List Json → Except String Fs
+  | [] => return .nil
+  | j :: r => return .cons (← j.getObjValAs? Bool "secure") (← parseV (← j.getObjVal? "v")) (← parseFs r)
+end
+end Secure
 
 end Coercion
